@@ -42,6 +42,7 @@ def _shapes(tier):
         "outline": ([F([O(1, [(2, []), (0, [])]), S(1)])], Z),      # second Examples table is header-only
         "2feat": ([F([S(2)]), F([S(1)])], Z),
         "wip": ([F([S(2, tags=["wip"]), S(1)])], Z),
+        "wip-inherited": ([F([S(1), R([S(2)], tags=["wip"])])], Z),      # @wip on the rule only
     }
     if tier == "thorough":
         sh.update({
